@@ -102,7 +102,7 @@ pub fn main(args: &[String]) -> i32 {
                 let (n, d) = item.split_once('=').unwrap_or(("", "-"));
                 let name = String::from_utf8(crate::common::unhex(n)).unwrap_or_default();
                 let want = crate::c18_wdt::unrle(d);
-                for sp in [name.clone(), name.to_uppercase(), name.replace('\\', "/")] {
+                for sp in [name.clone(), name.to_ascii_uppercase(), name.replace('\\', "/")] {
                     match a.read_file(&sp) { Ok(g) if g == want => {}, Ok(g) => { println!("FAIL {sp}: {} bytes differ (want {})", g.len(), want.len()); bad += 1; }
                         Err(e) => { let es = e.to_string(); if es.contains("Compression bomb") { println!("BOMB {sp}"); } else { println!("FAIL {sp}: {es}"); bad += 1; } } }
                 }
